@@ -1826,6 +1826,62 @@ func genGlue() string {
 		sb.WriteString("/-- modules/caddyhttp/app.go (*App).Stop: every `caddy.ListenerUsage(args)` call: `args | enclosing range loops` -/\n")
 		sb.WriteString("def listenerUsageCalls : List String := " + leanStrList(calls) + "\n")
 	}
+
+	// C16: every directive / global option registered anywhere in the module (non-test files)
+	{
+		var dirs, opts []string
+		filepath.Walk(repo, func(p string, info os.FileInfo, err error) error {
+			if err != nil {
+				return nil
+			}
+			if info.IsDir() {
+				if n := info.Name(); n == ".git" || n == "caddytest" {
+					return filepath.SkipDir
+				}
+				return nil
+			}
+			if !strings.HasSuffix(p, ".go") || strings.HasSuffix(p, "_test.go") || strings.HasSuffix(p, "_verif.go") {
+				return nil
+			}
+			fset := token.NewFileSet()
+			f, err := parser.ParseFile(fset, p, nil, 0)
+			if err != nil {
+				return nil
+			}
+			ast.Inspect(f, func(x ast.Node) bool {
+				ce, ok := x.(*ast.CallExpr)
+				if !ok || len(ce.Args) < 1 {
+					return true
+				}
+				name := ""
+				switch fn := ce.Fun.(type) {
+				case *ast.Ident:
+					name = fn.Name
+				case *ast.SelectorExpr:
+					name = fn.Sel.Name
+				}
+				bl, ok := ce.Args[0].(*ast.BasicLit)
+				if !ok || bl.Kind != token.STRING {
+					return true
+				}
+				v, _ := strconv.Unquote(bl.Value)
+				switch name {
+				case "RegisterDirective", "RegisterHandlerDirective":
+					dirs = append(dirs, v)
+				case "RegisterGlobalOption":
+					opts = append(opts, v)
+				}
+				return true
+			})
+			return nil
+		})
+		sort.Strings(dirs)
+		sort.Strings(opts)
+		sb.WriteString("\n/-- every name passed as a string literal to RegisterDirective / RegisterHandlerDirective in non-test files of the module (sorted) -/\n")
+		sb.WriteString("def registeredDirectives : List String := " + leanStrList(dirs) + "\n\n")
+		sb.WriteString("/-- … and to RegisterGlobalOption (sorted) -/\n")
+		sb.WriteString("def registeredGlobalOptions : List String := " + leanStrList(opts) + "\n")
+	}
 	sb.WriteString(footer)
 	return sb.String()
 }
